@@ -9,16 +9,29 @@ check():  Print Assumptions of the theorems in Properties/C20.v, then an EXACT c
           permutation sorting x non-increasingly (the only thing the theorems assume of it).  A value
           mismatch is re-tried once under the order reconstructed from the result itself (so that a
           refactoring that merely orders ties in g differently raises no alarm; Coq checks that order too).
+          BASE FUNCTIONS (Model/SourceAreaBase.v over R, theorems in Properties/C20Base.v): (B) the five return
+          expressions are re-extracted from utils.py by harness/sabaseslices.py (fail closed on anything but
+          straight-line code) and Bridge/SABaseBridge.v re-proves gen = model for all arguments; (A) every element of
+          the arrays returned by source_area_circular/upwind/crosswind/sector on generated inputs (axis-aligned and
+          oblique winds, cells on the axis / behind the tower / at the tower / exactly across, large and small
+          magnitudes, integer arrays, 1-D / 2-D / broadcast arrays, scalars) is a kernel-checked lemma
+          |model(exact rationals of the inputs) - python| <= 1e-12 * scale closed by `interval`;
+          source_area_contribution is compared bit for bit and checked not to alias its argument.
 oracle(): the property's own statement, brute force O(n^2) in exact integer arithmetic on the real code,
-          independent of the Coq model.
+          independent of the Coq model; for the base functions their four semantic statements (minus squared
+          distance / along-wind projection / minus squared distance to the wind axis / minus angle to the upwind
+          direction) with independent float formulas.
 """
 import hashlib
+import math
 import os
 import re
 import sys
 from fractions import Fraction
 
 import core
+import rcorr
+import sabaseslices
 
 os.environ.setdefault("MPLBACKEND", "Agg")
 os.environ.setdefault("NUMBA_CACHE_DIR", os.path.join(core.VERIF, "build", "numba_cache"))
@@ -29,17 +42,34 @@ THEOREMS = [
     "C20_percentile_least", "C20_percentile_fewest", "C20_percentile_monotone", "C20_scaling",
     "C20_order_check_sound", "C20_binary_search",
 ]
+THEOREMS_BASE = [  # Properties/C20Base.v (over R, stdlib real axioms only)
+    "C20_contribution_identity",
+    "C20_circular_is_minus_dist2", "C20_circular_order", "C20_circular_level_set_is_disc", "C20_circular_rotation_invariant",
+    "C20_upwind_is_projection", "C20_upwind_scale_invariant", "C20_upwind_reversal", "C20_upwind_of_projected_cell",
+    "C20_upwind_level_sets_perpendicular",
+    "C20_crosswind_is_minus_perp2", "C20_crosswind_is_min_distance", "C20_pythagoras", "C20_crosswind_reversal_scale",
+    "C20_crosswind_reflection",
+    "C20_sector_range", "C20_sector_cos", "C20_sector_is_minus_angle", "C20_sector_closed_form",
+    "C20_sector_zero_iff_upwind_ray", "C20_sector_level_set_is_cone", "C20_sector_reflection", "C20_sector_scale_invariant",
+    "C20_sector_at_tower",
+]
 TRUSTED = [
     "Model/SourceArea.v is hand-written; tied to utils.get_source_area, the source_area_* base functions and plotting.footprint.extract_percentile_contour (+ _maybe_slice_level) by exact differential execution on dyadic inputs",
     "np.argsort is not modelled: its output enters as data; Coq re-checks on every case that it is a permutation sorting the field non-increasingly (C20_order_check_sound)",
     "np.searchsorted (binary search) is modelled by searchsorted_left_bin and proved equal to the linear specification on cumulative sums of non-negative fields (C20_binary_search); both are compared with the code",
     "numpy ravel/reshape/fancy indexing/cumsum semantics as mirrored by concat/gather/scatter/cumsum in the model (exercised, not proved)",
-    "source_area_sector (arctan2/sin/cos) and oblique-wind upwind/crosswind (sqrt, inexact division) are covered only through the order their values induce; their formulas are not modelled",
+    "Model/SourceAreaBase.v (base functions over Coq's R, one grid cell at a time) is hand-written; tied to utils.source_area_contribution/circular/upwind/crosswind/sector by (B) five bridge lemmas against the return expressions re-extracted from the current source (harness/sabaseslices.py: straight-line code only, tuple parameters unpacked in order, everything else fails closed) and (A) interval-certified evaluation of the real model at the exact rational value of every input, element by element",
+    "np.sqrt = sqrt, np.sin/np.cos = sin/cos, np.abs = Rabs, np.arctan2 = the model's atan2 (Model/KM.v: principal value in (-pi, pi], arctan2(0,0) = 0); libm/numpy are not modelled, their rounding is inside the correspondence tolerance; numpy broadcasting of X against Y is elementwise (shape and every element checked)",
+    "the `interval` tactic is used ONLY by the per-element correspondence goals (each closed by Qed); no theorem of Properties/C20Base.v uses a numerical tactic.  For the sector function the goal is first rewritten with the proved closed form -|atan2(cross, dot)| in the quadrant decided by exact rational arithmetic on the case's inputs (side conditions closed by lra)",
+    "source_area_contribution = flx.copy(): modelled as the identity; the copy itself (fresh buffer, same dtype/shape/bytes) is checked on the real function, not proved",
 ]
 ASSUMPTIONS = [
     "theorems are over exact rationals: IEEE rounding of cumsum / cell_area products is not covered by any theorem (the correspondence uses inputs on which the float operations are exact)",
     "order/idx is any permutation of the cells sorting the field non-increasingly (hypothesis sorts_desc); no stability or tie-breaking rule of np.argsort is assumed",
     "f non-negative, p in [0,1], cell area > 0, field non-empty, f and g of equal size (as in the property's quantifier)",
+    "base functions: theorems are in exact real arithmetic; IEEE rounding is bounded per evaluated element only: |model - python| <= 1e-12*scale + 1e-60 with scale = (|x-xm|+|y-ym|)^2 for circular and crosswind, |x-xm|+|y-ym| for upwind, 1 (radian) for sector",
+    "base functions, degenerate inputs: wind = (0,0) is outside the hypotheses of the upwind/crosswind/sector-angle theorems (0 < u*u+v*v); Python divides by speed = 0.0 there (numpy scalar division: NaN everywhere, RuntimeWarning) and the sector function returns finite values that depend on the signs of the float zeros (arctan2(-0.0,-0.0) = -pi); the observed behaviour is recorded in the evidence (base_degenerate), not judged.  cell = tower in the sector function: numpy's arctan2(0,0) = 0 = the model's atan2 0 0, the value is -|direction angle of the upwind vector| (C20_sector_at_tower), covered by the correspondence",
+    "base functions, signed zeros: for v = 0.0 and u > 0 Python evaluates arctan2(-0.0, -u) = -pi where the real atan2 gives +pi; the re-wrapping through sin/cos removes the 2 pi, so the returned value agrees with the model within the tolerance (such winds are generated)",
     "the model describes get_source_area with the result allocated in the dtype of the cumulative sums (fix_C20.diff); on the unrepaired tree an integer-dtype g truncates the result and the check reports it",
 ]
 
@@ -421,6 +451,287 @@ def eval_terms(ctx, prefix, terms, batch, shard, jobs=8):
 
 
 # ---------------------------------------------------------------------------------------------
+# base functions: interval-certified correspondence with Model/SourceAreaBase.v (R side)
+
+BASE_HEADER = (rcorr.HEADER + "From Coq Require Import Lra.\n"
+               "From BL Require Import Model.KM Model.SourceAreaBase Proofs.SourceAreaBaseProofs.\n")
+# One tactic for every goal: the function is read off the goal; for the sector function the quadrant (decided by the
+# harness in exact rational arithmetic) is passed as a transparent marker `sec_xxx (P) := P` around the proposition, and
+# the tactic rewrites with the corresponding proved closed form (side conditions: exact, by lra) before `interval`.
+SECTOR_MARKS = {"sector:front": ("sec_front", "sector_front", True), "sector:back": ("sec_back", "sector_back", True),
+                "sector:side": ("sec_side", "sector_side", False), "sector:tower-east": ("sec_tower_east", "sector_tower_east", None),
+                "sector:tower-west": ("sec_tower_west", "sector_tower_west", None), "sector:tower-ns": ("sec_tower_ns", "sector_tower_ns", None)}
+
+
+def _base_prelude():
+    t = [BASE_HEADER]
+    arms = ["  | |- Rabs (sa_circular _ _ _ _ - _) <= _ => unfold sa_circular",
+            "  | |- Rabs (sa_upwind _ _ _ _ _ _ - _) <= _ => unfold sa_upwind, sa_speed",
+            "  | |- Rabs (sa_crosswind _ _ _ _ _ _ - _) <= _ => unfold sa_crosswind, sa_speed"]
+    for grp, (mark, lemma, unfold_cd) in sorted(SECTOR_MARKS.items()):
+        t.append("Definition %s (P : Prop) : Prop := P." % mark)
+        side = "by lra" if unfold_cd is None else "by (cbv beta delta [dist2 up_dot]; lra)"
+        post = "; cbv beta delta [up_cross up_dot]" if unfold_cd else ""
+        arms.append("  | |- %s _ => unfold %s; rewrite %s %s%s" % (mark, mark, lemma, side, post))
+    t.append("Ltac sa_prep :=\n  lazymatch goal with\n" + "\n".join(arms) + "\n  end.")
+    return "\n".join(t) + "\n"
+
+
+BASE_FLOOR = Fraction(1, 10 ** 60)
+BASE_REL = Fraction(1, 10 ** 12)
+
+
+def _exact(v):
+    """exact rational of a Python / numpy int or float scalar"""
+    np = _impl()[0]
+    if isinstance(v, (bool, np.bool_)):
+        raise TypeError("boolean")
+    if isinstance(v, (int, np.integer)):
+        return Fraction(int(v))
+    return Fraction(float(v))
+
+
+def _scalar_json(v):
+    np = _impl()[0]
+    return int(v) if isinstance(v, (int, np.integer)) else float(v)
+
+
+def base_goal(fn, x, y, xm, ym, u, v, g):
+    """one element: exact Fractions in, (group, proposition) out; None when the element is outside the model's
+    domain (sector/upwind/crosswind with wind = 0)"""
+    px, py = x - xm, y - ym
+    s1 = abs(px) + abs(py)
+    lit = rcorr.rlit
+    if fn == "circular":
+        tol = BASE_REL * s1 * s1 + BASE_FLOOR
+        return "circular", "Rabs (sa_circular %s %s %s %s - %s) <= %s" % (lit(x), lit(y), lit(xm), lit(ym), lit(g), lit(tol))
+    if u == 0 and v == 0:
+        return None
+    args = " ".join(lit(z) for z in (x, y, xm, ym, u, v))
+    if fn == "upwind":
+        tol = BASE_REL * s1 + BASE_FLOOR
+        return "upwind", "Rabs (sa_upwind %s - %s) <= %s" % (args, lit(g), lit(tol))
+    if fn == "crosswind":
+        tol = BASE_REL * s1 * s1 + BASE_FLOOR
+        return "crosswind", "Rabs (sa_crosswind %s - %s) <= %s" % (args, lit(g), lit(tol))
+    tol = BASE_REL + BASE_FLOOR
+    prop = "Rabs (sa_sector %s - %s) <= %s" % (args, lit(g), lit(tol))
+    if px == 0 and py == 0:
+        grp = "sector:tower-east" if u < 0 else "sector:tower-west" if u > 0 else "sector:tower-ns"
+    else:
+        dot = px * (-u) + py * (-v)
+        grp = "sector:front" if dot > 0 else "sector:back" if dot < 0 else "sector:side"
+    return grp, "%s (%s)" % (SECTOR_MARKS[grp][0], prop)
+
+
+def gen_base_inputs(rs, thorough):
+    """array-level calls: dicts {kind, X, Y, mp, wind}; every choice from rs"""
+    np = _impl()[0]
+    out = []
+    reps = 6 if thorough else 1
+
+    def dy(lo, hi, den=8):
+        return int(rs.integers(lo * den, hi * den + 1)) / float(den)
+
+    def rnd_wind():
+        w = (float(rs.normal(0, 3)), float(rs.normal(0, 3)))
+        return w if w != (0.0, 0.0) else (1.0, -2.0)
+
+    for _ in range(reps):
+        # axis-aligned winds (float zeros: -v = -0.0), a small mesh around the tower that contains the tower itself,
+        # cells on the axis in front of / behind the tower and cells exactly across
+        for k in range(4):
+            s = dy(1, 9, 4) or 1.0
+            wind = [(s, 0.0), (-s, 0.0), (0.0, s), (0.0, -s)][k]
+            mp = (dy(-8, 8), dy(-8, 8))
+            xs = mp[0] + np.array([-2.0, 0.0, 1.5])
+            ys = mp[1] + np.array([-1.25, 0.0])
+            X, Y = np.meshgrid(xs, ys)
+            out.append(dict(kind="axis-wind-mesh", X=X, Y=Y, mp=mp, wind=wind))
+        # oblique winds, 1-D arrays of random cells
+        for _k in range(5):
+            mp = (float(rs.uniform(-50, 50)), float(rs.uniform(-50, 50)))
+            n = int(rs.integers(2, 6))
+            out.append(dict(kind="oblique-1d", X=rs.uniform(-100, 100, n), Y=rs.uniform(-100, 100, n), mp=mp, wind=rnd_wind()))
+        # cells exactly on the wind axis (upwind ray t > 0, downwind t < 0) and exactly across (dot = 0), integer winds
+        for wind in [(3, -4), (-5.0, -12.0), (1.0, 1.0), (-2, 7)][: (4 if thorough else 3)]:
+            mp = (dy(-6, 6), dy(-6, 6))
+            t = np.array([2.0, 0.5, -1.0, -3.0])
+            out.append(dict(kind="on-axis", X=mp[0] + t * (-wind[0]), Y=mp[1] + t * (-wind[1]), mp=mp, wind=wind))
+            out.append(dict(kind="across", X=mp[0] + t * (-wind[1]), Y=mp[1] + t * wind[0], mp=mp, wind=wind))
+        # cell == tower: array and scalar inputs, every quadrant of the wind incl. the axes
+        for wind in [(2.5, 1.0), (-2.5, 1.0), (-1.0, -3.0), (1.0, -3.0), (0.0, 2.0), (0.0, -2.0), (4.0, 0.0), (-4.0, 0.0), (0, 3), (2, 0)]:
+            mp = (dy(-6, 6), dy(-6, 6))
+            out.append(dict(kind="tower", X=np.array([mp[0]]), Y=np.array([mp[1]]), mp=mp, wind=wind))
+        # large / small magnitudes of coordinates and of the wind
+        for sc, wsc in [(1e7, 30.0), (1e-6, 1e-3), (1.0, 1e-8), (1e4, 1e6), (1e-5, 1e5)]:
+            mp = (float(rs.uniform(-1, 1)) * sc, float(rs.uniform(-1, 1)) * sc)
+            n = 3
+            w = rnd_wind()
+            out.append(dict(kind="magnitudes", X=rs.uniform(-1, 1, n) * sc, Y=rs.uniform(-1, 1, n) * sc, mp=mp, wind=(w[0] * wsc, w[1] * wsc)))
+        # tower far from the origin, cells close to it (the subtraction X - xm cancels)
+        mp = (float(rs.uniform(1e5, 1e6)), float(rs.uniform(-1e6, -1e5)))
+        out.append(dict(kind="cancellation", X=mp[0] + rs.uniform(-3, 3, 3), Y=mp[1] + rs.uniform(-3, 3, 3), mp=mp, wind=rnd_wind()))
+        # integer-typed coordinate arrays: integer / float tower, integer / float wind
+        for k in range(4):
+            xi = np.arange(3, dtype=np.int64) * int(rs.integers(1, 4)) + int(rs.integers(-4, 4))
+            yi = np.arange(2, dtype=np.int64) * int(rs.integers(1, 4)) + int(rs.integers(-4, 4))
+            X, Y = np.meshgrid(xi, yi)
+            mp = (int(xi[1]), int(yi[0])) if k % 2 == 0 else (dy(-4, 4), dy(-4, 4))
+            wind = (int(rs.integers(1, 6)) * (-1) ** k, int(rs.integers(-5, 6))) if k < 2 else rnd_wind()
+            out.append(dict(kind="int-coords-2d", X=X, Y=Y, mp=mp, wind=wind))
+        # 2-D float mesh as get_source_area users pass it, Fortran order, and broadcasting of a row against a column
+        x = np.linspace(float(rs.uniform(-200, 0)), float(rs.uniform(1, 200)), 3)
+        y = np.linspace(float(rs.uniform(-100, 0)), float(rs.uniform(1, 100)), 2)
+        X, Y = np.meshgrid(x, y)
+        mp = (float(rs.uniform(-20, 60)), float(rs.uniform(-20, 20)))
+        out.append(dict(kind="mesh-2d", X=X, Y=Y, mp=mp, wind=rnd_wind()))
+        out.append(dict(kind="mesh-2d-fortran", X=np.asfortranarray(X), Y=np.asfortranarray(Y), mp=mp, wind=rnd_wind()))
+        out.append(dict(kind="broadcast-row-column", X=x[None, :], Y=y[:, None], mp=mp, wind=rnd_wind()))
+        # scalars and numpy-scalar tower / wind
+        out.append(dict(kind="scalar", X=float(rs.uniform(-9, 9)), Y=float(rs.uniform(-9, 9)), mp=(dy(-4, 4), dy(-4, 4)), wind=rnd_wind()))
+        w = rnd_wind()
+        out.append(dict(kind="numpy-scalar-args", X=rs.uniform(-9, 9, 2), Y=rs.uniform(-9, 9, 2),
+                        mp=(np.float64(dy(-4, 4)), np.float64(dy(-4, 4))), wind=(np.float64(w[0]), np.float64(w[1]))))
+    return out
+
+
+BASE_FUNCS = ["circular", "upwind", "crosswind", "sector"]
+
+
+def call_base(U, fn, X, Y, mp, wind):
+    if fn == "circular":
+        return U.source_area_circular(X, Y, mp)
+    return getattr(U, "source_area_" + fn)(X, Y, mp, wind)
+
+
+def base_hint(fn, x, y, mp, wind, kind=None, impl=None):
+    h = {"kind": "base", "fn": fn, "X": [_scalar_json(x)], "Y": [_scalar_json(y)],
+         "mp": [_scalar_json(mp[0]), _scalar_json(mp[1])], "wind": [_scalar_json(wind[0]), _scalar_json(wind[1])]}
+    if kind is not None:
+        h["array"] = kind
+    if impl is not None:
+        h["impl"] = _scalar_json(impl)
+    return h
+
+
+def check_contribution(ctx, rs, hist):
+    """source_area_contribution(flx) = flx.copy(): same type, dtype, shape, bytes; a fresh buffer"""
+    np, U, _ = _impl()
+    n = 0
+    base2 = rs.normal(size=(4, 5))
+    inputs = [("float-2d", rs.random((3, 4))), ("float-3d", rs.random((2, 3, 2))), ("int64-2d", rs.integers(0, 9, size=(2, 3))),
+              ("float32-2d", rs.random((2, 2)).astype(np.float32)), ("fortran", np.asfortranarray(rs.random((3, 2)))),
+              ("strided-view", base2[::2, 1::2]), ("with-nan-inf-negzero", np.array([[np.nan, np.inf], [-0.0, 1.0]])),
+              ("empty", np.zeros((0, 3)))]
+    for name, f in inputs:
+        n += 1
+        hist["contribution:" + name] = hist.get("contribution:" + name, 0) + 1
+        keep = f.copy()
+        hint = {"kind": "base", "fn": "contribution", "flx": np.asarray(f).tolist(), "dtype": str(f.dtype)}
+        try:
+            g = U.source_area_contribution(f)
+        except Exception as e:
+            ctx.fail("correspondence", "C20:contribution-" + name, "source_area_contribution raised %s: %s" % (type(e).__name__, e), hint=hint)
+            continue
+        if not isinstance(g, np.ndarray) or g.dtype != f.dtype or g.shape != f.shape or np.ascontiguousarray(g).tobytes() != np.ascontiguousarray(f).tobytes():
+            ctx.fail("correspondence", "C20:contribution-" + name, "result is not an identical array (type %s, dtype %s, shape %r)" % (
+                type(g).__name__, getattr(g, "dtype", None), getattr(g, "shape", None)), hint=hint)
+            continue
+        if f.size and np.shares_memory(g, f):
+            ctx.fail("correspondence", "C20:contribution-alias-" + name, "the result shares memory with the argument (not a copy)", hint=hint)
+            continue
+        if f.size and f.dtype.kind in "fi":
+            g.ravel()[0] = 77
+            g[...] = g + 1
+            if np.ascontiguousarray(f).tobytes() != np.ascontiguousarray(keep).tobytes():
+                ctx.fail("correspondence", "C20:contribution-alias-" + name, "writing to the result changed the argument", hint=hint)
+    return n
+
+
+def probe_degenerate():
+    """what the code does for wind = (0,0) (outside the theorems' hypotheses): recorded, not judged"""
+    np, U, _ = _impl()
+    X, Y = np.meshgrid(np.array([-1.0, 0.0, 2.0]), np.array([0.0, 1.0]))
+    out = {}
+    for label, wind in (("float-zeros", (0.0, 0.0)), ("int-zeros", (0, 0))):
+        for fn in ("upwind", "crosswind", "sector"):
+            try:
+                with np.errstate(all="ignore"):
+                    g = np.asarray(call_base(U, fn, X, Y, (0.0, 0.0), wind), dtype=float)
+                out["%s:%s" % (fn, label)] = ("all-nan" if np.isnan(g).all() else "some-nan" if np.isnan(g).any()
+                                              else "finite, values %s" % np.round(g.ravel(), 6).tolist())
+            except Exception as e:
+                out["%s:%s" % (fn, label)] = "raises %s" % type(e).__name__
+    return out
+
+
+def check_base(ctx, rs, hist):
+    """bridge + interval-certified correspondence of the base functions.  Returns the number of evaluations."""
+    np, U, _ = _impl()
+    sabaseslices.run(ctx)
+    n_eval = check_contribution(ctx, rs, hist)
+    groups = {}        # goal group -> [(cid, prop)]
+    info = {}
+    cells = set()
+    n_calls = 0
+    for ci, c in enumerate(gen_base_inputs(rs, ctx.thorough)):
+        X, Y, mp, wind = c["X"], c["Y"], c["mp"], c["wind"]
+        try:
+            bshape = np.broadcast(np.asarray(X), np.asarray(Y)).shape
+            bx, by = np.broadcast_arrays(np.asarray(X), np.asarray(Y))
+        except ValueError:
+            continue
+        for fn in BASE_FUNCS:
+            n_calls += 1
+            key = "base:%s:%s" % (fn, c["kind"])
+            hist[key] = hist.get(key, 0) + 1
+            h0 = base_hint(fn, bx.ravel()[0], by.ravel()[0], mp, wind, c["kind"])
+            try:
+                with np.errstate(all="ignore"):     # non-finite results are reported below
+                    g = call_base(U, fn, X, Y, mp, wind)
+            except Exception as e:
+                ctx.fail("correspondence", "C20:base-%s-%d" % (fn, ci), "source_area_%s raised %s: %s (%s)" % (fn, type(e).__name__, e, c["kind"]), hint=h0)
+                continue
+            ga = np.asarray(g)
+            if ga.shape != bshape:
+                ctx.fail("correspondence", "C20:base-%s-%d" % (fn, ci), "result shape %r, broadcast shape of X and Y %r (%s)" % (ga.shape, bshape, c["kind"]), hint=h0)
+                continue
+            if ga.dtype.kind not in "fiu" or (ga.dtype.kind == "f" and not np.all(np.isfinite(ga))):
+                ctx.fail("correspondence", "C20:base-%s-%d" % (fn, ci), "result dtype %s / non-finite values for finite inputs and a non-zero wind (%s)" % (ga.dtype, c["kind"]), hint=h0)
+                continue
+            xm, ym, u, v = _exact(mp[0]), _exact(mp[1]), _exact(wind[0]), _exact(wind[1])
+            for j, (xe, ye, ge) in enumerate(zip(bx.ravel(), by.ravel(), ga.ravel())):
+                r = base_goal(fn, _exact(xe), _exact(ye), xm, ym, u, v, _exact(ge))
+                if r is None:
+                    continue
+                grp, prop = r
+                cid = "%s_%d_%d" % (fn[:2], ci, j)
+                groups.setdefault(grp, []).append((cid, prop))
+                info[cid] = (fn, base_hint(fn, xe, ye, mp, wind, c["kind"], ge), grp)
+                hist["base_goal:" + grp] = hist.get("base_goal:" + grp, 0) + 1
+                if (xe, ye) != (mp[0], mp[1]):
+                    cells.add((fn, float(xe), float(ye), float(mp[0]), float(mp[1]), float(wind[0]), float(wind[1])))
+    goals = [g for grp in sorted(groups) for g in groups[grp]]
+    n_goals = len(goals)
+    failing, err = rcorr.certify(ctx, "c20iv", _base_prelude(), "sa_prep;", goals, shard=48, jobs=10)
+    if err and not failing:
+        ctx.fail("correspondence", "C20:base-coq-interval", err)
+    for cid in sorted(failing)[:8]:
+        fn, h, grp = info[cid]
+        ctx.fail("correspondence", "C20:base-" + cid,
+                 "source_area_%s: |model - python| <= 1e-12*scale not certified (%s) at cell (%r, %r), tower %r, wind %r: python %r" % (
+                     fn, grp, h["X"][0], h["Y"][0], h["mp"], h["wind"], h.get("impl")), hint=h)
+    ctx.cov["base_functions"] = {
+        "array_calls": n_calls, "interval_certified_elements": n_goals, "distinct_cells_off_tower": len(cells),
+        "contribution_exact_checks": n_eval, "goal_groups": {k: len(v) for k, v in sorted(groups.items())},
+        "tolerance": "1e-12*scale + 1e-60; scale = (|x-xm|+|y-ym|)^2 circular/crosswind, |x-xm|+|y-ym| upwind, 1 sector",
+    }
+    ctx.cov["base_degenerate"] = probe_degenerate()
+    return n_eval + n_goals
+
+
+# ---------------------------------------------------------------------------------------------
 # check
 
 
@@ -448,8 +759,10 @@ def nontrivial_pct(case):
 
 def check(ctx):
     core.check_properties_file(ctx, "Properties/C20.v", THEOREMS, core.AX_NONE)
+    core.check_properties_file(ctx, "Properties/C20Base.v", THEOREMS_BASE, core.AX_REALS)
     np, U, epc = _impl()
     rs = np.random.default_rng(ctx.rng.getrandbits(64))
+    rs_base = np.random.default_rng(ctx.rng.getrandbits(64))   # drawn second: the streams below see the same cases as before
     n_gsa = 7000 if ctx.thorough else 420
     n_pct = 5000 if ctx.thorough else 320
 
@@ -573,6 +886,10 @@ def check(ctx):
                      c["fk"], np.asarray(c["flx"]).shape, c["gridkind"], c["pct"], c["level"], CODES.get(code, code)),
                  hint=case_hint(c))
 
+    # ---- base functions: bridge + interval-certified correspondence (Model/SourceAreaBase.v)
+    n_base = check_base(ctx, rs_base, hist)
+    n_eval += n_base
+
     samples = []
     for c in cases[:: max(1, len(cases) // 3)][:3]:
         h = case_hint(c)
@@ -593,7 +910,10 @@ def check(ctx):
                  "(1) get_source_area on dyadic non-negative f (kinds %s) x base field g (kinds %s), every pair at least once, 2-D and 3-D, "
                  "with the concrete order np.argsort(g.ravel())[::-1] passed as data and checked in Coq to be a sorting permutation; "
                  "(2) the base functions contribution / circular / axis-aligned upwind and crosswind compared value by value (exact on dyadic coordinates); "
-                 "sector and oblique winds only through (1); "
+                 "(2b) ALL four coordinate base functions, element by element, against the real-number model Model/SourceAreaBase.v: each element a kernel-checked lemma "
+                 "|model - python| <= 1e-12*scale closed by interval (axis-aligned and oblique winds, cells on the axis in front of / behind the tower, exactly across, at the tower, "
+                 "large / small magnitudes, cancellation in X - xm, integer arrays, 1-D / 2-D / Fortran / broadcast arrays, scalars), contribution bit for bit and not aliased; "
+                 "the five return expressions re-extracted from the source and proved equal to the model (bridge); "
                  "(3) extract_percentile_contour on 2-D and 3-D fields (level slicing), 1-D / 2-D / 3-D coordinate arrays, positive and negative spacings, "
                  "fractions k/64 incl. 1 and 1/64, against the linear-search and the binary-search model. "
                  "distinct_nontrivial = distinct inputs (sha1 of the arrays) with >= 4 cells, >= 2 distinct positive f values and (stream 1) >= 2 distinct g values"
@@ -601,7 +921,7 @@ def check(ctx):
         "samples": samples[:6],
         "histogram": hist,
         "correspondence_mismatches": len(bad) + len(badb) + len(badp),
-        "streams": {"get_source_area": len(terms), "base_functions": len(base_terms), "percentile": len(pterms)},
+        "streams": {"get_source_area": len(terms), "base_functions": len(base_terms), "percentile": len(pterms), "base_functions_R": n_base},
     })
 
 
